@@ -31,6 +31,9 @@ func vh_C14_L1_close_after_data_and_reuse() {
 	vassert(s.Close() == nil, "close accepted")
 	_, werr := s.WriteSCTP([]byte{1}, PayloadTypeWebRTCString)
 	vassert(werr != nil, "write after close is rejected")
+	if vPick(2) == 1 {
+		a.cwnd = 1 // congestion-limited: one chunk per round trip, data is still pending when the marker is reached
+	}
 	net := &vNet{a: a, b: b, dropAt: -1, dupAt: -1}
 	if vPick(2) == 1 {
 		net.dropAt = vPick(6)
